@@ -921,3 +921,25 @@ _STEP_WHILE = """        k = 1
 for _pid in ('C01', 'C03', 'C11', 'C12', 'C16', 'C17'):
     benign(_pid, 'stepping-with-a-counting-while', SV, _STEP_FULL, _STEP_WHILE)
 mutant('C11', 'counting-while-one-short', SV, _STEP_FULL, _STEP_WHILE.replace('while k <= simulation_steps', 'while k < simulation_steps'), 'C11.grid')
+
+# ------------------------------------------------------------------------------------------ round-4 rules
+mutant('C05', 'interval-to-inplace-stale-unit', UN, "            super().to(target_unit=target_unit, inplace=True)\n            self.__value = converted.value\n            self.__unit = converted.unit\n", "            super().to(target_unit=target_unit, inplace=True)\n            self.__value = converted.value\n", 'C05.to')
+mutant('C11', 'interval-to-inplace-stale-unit', UN, "            super().to(target_unit=target_unit, inplace=True)\n            self.__value = converted.value\n            self.__unit = converted.unit\n", "            super().to(target_unit=target_unit, inplace=True)\n            self.__value = converted.value\n", 'C11.dep.arith')
+mutant('C07', 'quantities-hashable-by-value', UB, "    def __ne__(self, other: UnitBase) -> None:",
+       "    def __hash__(self):\n        return hash((self.__class__.__name__, self.value, self.unit))\n\n    def __ne__(self, other: UnitBase) -> None:", 'C07.hash-key')
+mutant('C06', 'inertia-inplace-mul', UN, "class InertiaMoment(UnitBase):", "class InertiaMoment(UnitBase):\n\n    def __imul__(self, other):\n        self.__value = self.__value*other\n        return self\n", 'C06.operands')
+mutant('C12', 'inertia-inplace-mul', UN, "class InertiaMoment(UnitBase):", "class InertiaMoment(UnitBase):\n\n    def __imul__(self, other):\n        self.__value = self.__value*other\n        return self\n", 'C12.dep.arith')
+mutant('C12', 'reset-early-return', PT, "        self.__time = []\n\n        for element in self.elements:", "        if not self.__time:\n            return\n        self.__time = []\n\n        for element in self.elements:", 'C12.reset')
+mutant('C17', 'reset-early-return', PT, "        self.__time = []\n\n        for element in self.elements:", "        if not self.__time:\n            return\n        self.__time = []\n\n        for element in self.elements:", 'C17.reset')
+multi('C15', 'rule-keeps-time-list', 'mutant', [
+    (CP, "        self.__powertrain = powertrain\n", "        self.__powertrain = powertrain\n        self.__time = powertrain.time\n"),
+    (CP, "current_time=self.__powertrain.time[-1]", "current_time=self.__time[-1]")], 'C15.pure')
+mutant('C13', 'control-before-lock-decision', SV, "        self._compute_angular_position_and_speed()\n        self._check_powertrain_is_locked()",
+       "        self._compute_angular_position_and_speed()\n        self._compute_motor_control(motor_control=motor_control)\n        self._check_powertrain_is_locked()", 'C13.clamp')
+multi('C17', 'pwm-samples-in-private-list', 'mutant', [
+    (DC, "        self.__pwm = 1\n", "        self.__pwm = 1\n        self.__pwm_samples = []\n"),
+    (DC, "        if 'pwm' not in self.time_variables.keys():\n            self.time_variables['pwm'] = [self.pwm]\n        else:\n            self.time_variables['pwm'].append(self.pwm)\n",
+     "        self.__pwm_samples.append(self.pwm)\n        self.time_variables.setdefault('pwm', self.__pwm_samples)\n")], 'C17')
+mutant('C18', 'export-splitext', EXP, "    if not file_path.endswith('.csv'):\n        file_path += '.csv'\n", "    file_path = os.path.splitext(file_path)[0] + '.csv'\n", 'C18.export')
+benign('C18', 'export-suffix-conditional-expression', EXP, "    if not file_path.endswith('.csv'):\n        file_path += '.csv'\n", "    file_path = file_path if file_path.endswith('.csv') else file_path + '.csv'\n")
+benign('C15', 'rule-keeps-motor-reference', CP, "        self.__powertrain = powertrain\n", "        self.__powertrain = powertrain\n        self.__elements = powertrain.elements\n")
